@@ -251,7 +251,7 @@ class HarnessHangTimeout(BaseException):
 
 
 def _alarm(signum, frame):
-    raise HarnessHangTimeout(f"call still running after {HANG_LIMIT_S} s")
+    raise HarnessHangTimeout("call still running after the harness's hang limit")
 
 
 def traced_run(c, fault_plan=None, keep_model=False):
@@ -282,7 +282,8 @@ def traced_run(c, fault_plan=None, keep_model=False):
     # "never hangs" (C20): a call that is still running after HANG_LIMIT_S is interrupted by an alarm and recorded as
     # a raise event of type HarnessHangTimeout, whose elapsed time fails the clause call_does_not_hang.  The limit is
     # far above any legitimate duration (seconds), even on a machine loaded 30 times over (observed: 58 s).
-    hdr["timeLimitMs"] = int(c.get("time_limit_ms", HANG_LIMIT_S * 1000 - 5000))
+    hang_limit = int(c.get("hang_limit_s", HANG_LIMIT_S))
+    hdr["timeLimitMs"] = int(c.get("time_limit_ms", hang_limit * 1000 - 5000))
     tracedir = common.scratch("run-")
     hdr["_beta_caller"] = hyper["label_switching_cost"]
     rec = sink.Recorder(hdr, tracedir)
@@ -307,7 +308,7 @@ def traced_run(c, fault_plan=None, keep_model=False):
     armed = threading.current_thread() is threading.main_thread()
     if armed:
         old_handler = signal.signal(signal.SIGALRM, _alarm)
-        signal.alarm(HANG_LIMIT_S)
+        signal.alarm(hang_limit)
     try:
         with contextlib.redirect_stdout(io.StringIO()):
             if c.get("swap"):
@@ -369,9 +370,24 @@ def return_event(c, hdr, rec, res, series, args_same):
     K, W, N = c["K"], c["W"], c["N"]
     ev = {"ev": "return", "args_same": args_same, "children": live_children()}
     pl = res.point_labels
-    per_series = [[int(x) for x in l] for l in pl] if c["fe"] == "joint" else [[int(x) for x in pl]]
+
+    def _as_list(l):
+        """One series' labels as a list; something that is not a sequence of labels becomes a one-element list
+        holding the marker -99 (never a legal label), so that the shape clauses of C04 fail instead of the driver."""
+        try:
+            return list(l)
+        except TypeError:
+            return [-99]
+
+    def _as_int(x):
+        try:
+            return int(x) if float(x) == int(x) else -98
+        except (TypeError, ValueError):
+            return -97
+    lists = [_as_list(l) for l in _as_list(pl)] if c["fe"] == "joint" else [_as_list(pl)]
+    per_series = [[_as_int(x) for x in l] for l in lists]
     ev["labelsPerSeries"] = per_series
-    ev["labelsIntegral"] = all(float(x) == int(x) for l in (pl if c["fe"] == "joint" else [pl]) for x in l)
+    ev["labelsIntegral"] = all(v > -90 for l in per_series for v in l)
     ev["K"], ev["W"] = int(res.num_clusters), int(res.window_size)
     ev["mrfShapes"] = [list(np.asarray(m).shape) for m in res.markov_random_fields]
     ev["mrfDigs"] = [proj.dig(m) for m in res.markov_random_fields]
